@@ -2858,6 +2858,9 @@ class x86_mn(x86_mn_base):
             if x86_afs.imm in a:
                 if a[x86_afs.ad]: t_size = tab_size2int[x86_afs.u32]
                 else:             t_size = tab_size2int[size]
+                if not -t_size.limit//2 <= int(a[x86_afs.imm]) < t_size.limit:
+                    raise ValueError('immediate %d does not fit in %d bits'%(
+                        int(a[x86_afs.imm]), t_size.size))
                 a[x86_afs.imm] = t_size(a[x86_afs.imm])
     arg_set_numpy_imm = classmethod(arg_set_numpy_imm)
 
